@@ -102,7 +102,7 @@ def rich_ruleset(rng, path):
     ps = sorted([rng.choice([0.5, 0.25, 0.125, 0.2, 0.05, 0.3]) for _ in structs], reverse=True)
     base = list(zip(structs, ps))
     omen_prob = rng.choice([[(1, 0.4), (2, 0.2), (3, 0.1)], [(1, 0.26), (2, 0.25), (3, 0.0), (4, 0.0)],
-                            [(2, 0.3), (1, 0.1)]])
+                            [(2, 0.3), (1, 0.1)], [(1, 0.3), (2, 0.3), (3, 0.1)]])
     rulesets.write_ruleset(path, terminals, base, prince=[(n, 0.5 / (i + 1)) for i, n in enumerate(names)],
                            omen_prob=omen_prob, omen_keyspace=[(l, 1) for l, _ in omen_prob])
     return {'terminals': terminals, 'base': base, 'omen_prob': omen_prob}
